@@ -60,7 +60,7 @@ def _pieces(st, step_by_id):
 class C14(Machine):
     prop = "C14"
     title = "piecewise hashing == one-shot"
-    runs = (2400, 60000)
+    runs = (2400, 100000)
     components = {
         "real": ["crysp.md MD4/MD5", "crysp.sha SHA1/SHA2", "crysp.blake Blake/Blake2 (+ singletons as noise and stream owners)",
                  "crysp.nilsimsa Nilsimsa", "crysp.padding blockiterator/MDpadding/SHApadding/Blakepadding/Nullpadding",
